@@ -957,11 +957,13 @@ def _simplify_seq_trace(trace):
 class C04Engine:
     name = "seqworld/C04"
     RULE = ("one run = one seeded history: 1-2 initial Sequences (freshness state drawn from abs-only / rel-only / both / "
-            "Sequence()), then up to 16 (quick) / 40 (thorough) events over the full public alphabet, stepped view-iterators "
-            "and maskable perturbations; the first 228 run indices are a directed sweep 'every op from every freshness state'. "
-            "distinct_nontrivial counts distinct abstract schedules (crc of the sequence of (op, freshness-before, iterator "
-            "phase), content abstracted away) among runs that executed >=1 mutating step AND >=1 fired perturbation "
-            "(read / refresh / cache drop / copy-swap / iterator cancellation is not counted as perturbation).")
+            "Sequence(); content from sparse to dense, incl. 'strummed chord' and almost-quantised shapes), then up to 16 (quick) / 40 "
+            "(thorough) events over the full public alphabet (arguments incl. helper-built grids, negative indices, the receiver as its "
+            "own meta sequence, Bar() construction, tokenise), stepped view-iterators and maskable perturbations; the first 246 run "
+            "indices are a directed sweep 'every op from every freshness state'; 6 % of the runs are a scripted ping-pong lane that "
+            "alternates the two iterators on the same messages with values from tiny pools. distinct_nontrivial counts distinct abstract "
+            "schedules (crc of the sequence of (op, freshness-before, iterator phase), content abstracted away) among runs that executed "
+            ">=1 mutating step AND >=1 fired perturbation (read / refresh / cache drop / copy-swap).")
     REAL = ["scoda.sequences.sequence.Sequence", "AbsoluteSequence", "RelativeSequence", "Message", "Bar (via sequences_split_bars)",
             "everything they call"]
     STUB = ["nothing is stubbed; the simulator plays the caller"]
